@@ -79,7 +79,12 @@ func RegisterInternalMessage[T any](messageName string, reader InternalMessageRe
 }
 
 func QueryMessageDesc(message any) *MessageDesc {
-	tof := reflect.TypeOf(message).Elem()
+	// nil 消息与非指针消息不可能是已注册的内部消息（注册的均为指针类型），按外部消息处理而不是 panic
+	typ := reflect.TypeOf(message)
+	if typ == nil || typ.Kind() != reflect.Ptr {
+		return outsideMessageDesc
+	}
+	tof := typ.Elem()
 	desc, ok := internalMessageTypeOfDesc[tof]
 	if ok {
 		return desc
@@ -95,10 +100,16 @@ func QueryMessageDescByName(messageName string) *MessageDesc {
 	return outsideMessageDesc
 }
 
-func SerializeRemotingMessage(codec Codec, writer *Writer, desc *MessageDesc, message any) error {
+func SerializeRemotingMessage(codec Codec, writer *Writer, desc *MessageDesc, message any) (err error) {
 	dw := NewWriterFromPool()
 	defer ReleaseWriterToPool(dw)
-	if err := desc.writer(message, dw, codec); err != nil {
+	// 消息写入器遇到 nil 消息指针或 nil 字段（如 PongMessage.Ping）时会 panic，这里转换为编码错误
+	defer func() {
+		if r := recover(); r != nil {
+			err = fmt.Errorf("serialize message %s failed: %v", desc.messageName, r)
+		}
+	}()
+	if err = desc.writer(message, dw, codec); err != nil {
 		return err
 	}
 	writer.WriteBytesWithLength(dw.Bytes(), LengthSize4)
